@@ -194,4 +194,83 @@ def deltaHitMiss (value point logd : Sem) : Sem := if semEq value point then log
 /-- `ops.log` of the 0/1 indicator, then `+ log_density` (what the code literally computes). -/
 def logIndicatorPlus (hit : Bool) (d : XR) : XR := XR.add (if hit then 0 else XR.ninf) d
 
+/-! ### Delta.eager_subs as an executable model (delta.py:136) -/
+
+/-- First binding of `n` in a term-level substitution. -/
+def dget : List (Name × Term) → Name → Option Term
+  | [], _ => none
+  | (k, v) :: r, n => if k = n then some v else dget r n
+
+/-- What `Delta.eager_subs` returns: `Delta(new_terms)`, the accumulated `log_densities` — each one
+    `(value == point).all().log() + log_density`, kept as the triple (value, point, log_density) — or both, added. -/
+structure DRes where
+  kept : List (Name × Term × Term)
+  dens : List (Term × Term × Term)
+
+/-- `not any(d.dtype == "real" for side in (value, point) for d in side.inputs.values())`; `reals` = the real-valued
+    names of the typing context. -/
+def groundPair (reals : List Name) (value point : Term) : Bool :=
+  (value.fv ++ point.fv).all (fun n => decide (n ∉ reals))
+
+/-- The loop over `self.terms`.  `none` = the `solve(value, point)` branch (inverting a substitution with real
+    inputs — C14's subject, outside this model; the code itself returns `None`/lazy when `solve` fails). -/
+def deltaEagerSubs (reals : List Name) : List (Name × Term × Term) → List (Name × Term) → Option DRes
+  | [], _ => some ⟨[], []⟩
+  | (n, p, d) :: rest, σ =>
+    match deltaEagerSubs reals rest σ with
+    | none => none
+    | some r =>
+      match dget σ n with
+      | none => some ⟨(n, p, d) :: r.kept, r.dens⟩
+      | some (Term.var x _) => some ⟨(x, p, d) :: r.kept, r.dens⟩
+      | some v => if groundPair reals v p then some ⟨r.kept, (v, p, d) :: r.dens⟩ else none
+
+/-- One accumulated log-density at an environment. -/
+def densAt (env : Env) (t : Term × Term × Term) : Option Sem :=
+  match denote t.1 env, denote t.2.1 env, denote t.2.2 env with
+  | some xv, some pv, some dv => some (deltaHitMiss xv pv dv)
+  | _, _, _ => none
+
+/-- `reduce(ops.add, log_densities)` (left fold; `none` on an empty list — the code never reduces an empty list). -/
+def densSum (env : Env) : List (Term × Term × Term) → Option Sem
+  | [] => none
+  | [t] => densAt env t
+  | t :: ts =>
+    match densAt env t, densSum env ts with
+    | some a, some b => Sem.zip? (binop "add") a b
+    | _, _ => none
+
+/-- The meaning of the result: `Delta(new_terms)` / `reduce(add, log_densities)` / their sum. -/
+def DRes.meaning (r : DRes) (env : Env) : Option Sem :=
+  match r.dens with
+  | [] => denote (Term.delta r.kept) env
+  | _ :: _ =>
+    match r.kept with
+    | [] => densSum env r.dens
+    | _ :: _ =>
+      match denote (Term.delta r.kept) env, densSum env r.dens with
+      | some a, some b => Sem.zip? (binop "add") a b
+      | _, _ => none
+
+/-! ### Independent.eager_subs as an executable model (terms.py ~1877) -/
+
+/-- `value` a `Variable`: rename `reals_var`; otherwise convert to a `Reduce`. -/
+def indepEagerSubs (fn : Term) (bv dv : Name) (size : Nat) (value : Term) : Term :=
+  match value with
+  | Term.var x _ => Term.independent fn x bv dv size
+  | v => indepSubsTerm fn bv dv size v
+
+/-! ### MarkovProduct / Scatter: the decision `eager_subs` takes, on names only (executable) -/
+
+/-- `some (new step names / destination names, keys of the remaining lazy Subs)` or `none` = `return None`. -/
+def mpDecide (stepNames : List (Name × Name)) (σ : List (Name × Option Name)) : Option (List (Name × Name) × List Name) :=
+  -- σ: key ↦ some x (a Variable x) | none (any other value)
+  let lk := fun n => (σ.find? (fun p => p.1 == n)).map (·.2)
+  let renames := σ.filterMap (fun p => p.2)
+  let lazy := (σ.filter (fun p => p.2.isNone)).map (·.1)
+  if renames.isEmpty || renames.any (fun x => lazy.contains x) then none
+  else some (stepNames.map (fun p => (p.1, match lk p.2 with
+      | some (some x) => x
+      | _ => p.2)), lazy)
+
 end FV.C04
